@@ -343,7 +343,7 @@ impl Sys {
         for ent in &ents {
             for wp in 0..N_WRITE_PATHS {
                 let kind = ((ent.uid + wp as u32) % 4) as u8;
-                let nv = self.fresh_vals(ent.arch as usize + 1);
+                let nv = self.fresh_vals(ARITIES[ent.arch as usize]);
                 let ok = with_arch!(ent.arch as usize, A => {
                     let key = self.key_for::<A>(w, ent.any, kind, Via::World)?;
                     let world = self.worlds[w].as_mut().unwrap();
